@@ -68,7 +68,7 @@ def _covers(dom, host):
     return h == dom[1:] or h.endswith(dom)
 
 
-def j_hist(nresp, merged=False, client_cookie=False):
+def j_hist(nresp, merged=False, client_cookie=False, redirect=False):
     """nresp responses, each setting 1 cookie (or 2 in merged multi-line form) for one catalogue domain; after every
     response a handshake to every catalogue host checks the Cookie header"""
     quiet_logging()
@@ -88,6 +88,12 @@ def j_hist(nresp, merged=False, client_cookie=False):
             lines.append("Set-Cookie: %s=%s%s" % (n_, v_, "; Domain=" + dom if dom is not None else ""))
 
         def respond(server, head, key, lines=lines):
+            if redirect and not head.startswith("GET /landed"):
+                # the cookie arrives on a redirect response of the handshake; the redirected request gets a plain 101
+                return ("HTTP/1.1 302 Found\r\nLocation: ws://setter2.example/landed\r\n%s\r\n\r\n" % "\r\n".join(lines)).encode()
+            if redirect:
+                return ("HTTP/1.1 101 Switching Protocols\r\nUpgrade: websocket\r\nConnection: Upgrade\r\nSec-WebSocket-Accept: %s\r\n\r\n"
+                        % accept_for(key)).encode()
             return ("HTTP/1.1 101 Switching Protocols\r\nUpgrade: websocket\r\nConnection: Upgrade\r\nSec-WebSocket-Accept: %s\r\n%s\r\n\r\n"
                     % (accept_for(key), "\r\n".join(lines))).encode()
         _roundtrip("setter.example", respond, None)
@@ -135,11 +141,12 @@ def obligations(tier):
     get = [dict(hl=h, dl=d) for h in range(0, (10 if thorough else 8)) for d in range(0, (7 if thorough else 5))]
     get += [dict(hl=h, dl=d, two=True) for h in (1, 3) for d in (1, 2)]
     hist = [dict(nresp=n) for n in ((1, 2, 3) if thorough else (1, 2))] + [dict(nresp=1, merged=True), dict(nresp=2, merged=True),
-                                                                            dict(nresp=1, client_cookie=True), dict(nresp=2, client_cookie=True)]
+                                                                            dict(nresp=1, client_cookie=True), dict(nresp=2, client_cookie=True),
+                                                                            dict(nresp=1, redirect=True), dict(nresp=2, redirect=True)]
     return [
         Obligation("J-get", j_get, get, bounds="host of 0..%d and domain of 0..%d symbolic ASCII characters; one or two stored domains" % (9 if thorough else 7, 6 if thorough else 4),
                    must_cover=["sent", "not-sent"], budget_s=1800, kernel=["SimpleCookieJar.get"]),
-        Obligation("J-hist", j_hist, hist, bounds="histories of <=%d responses over names {a,b} x values {1,2} x domains %s (+ merged two-line form, + caller cookie), "
+        Obligation("J-hist", j_hist, hist, bounds="histories of <=%d responses over names {a,b} x values {1,2} x domains %s (+ merged two-line form, + caller cookie, + cookie set by a 302 redirect response of the handshake), "
                    "each followed by handshakes to %s" % (3 if thorough else 2, DOMAINS, HOSTS), must_cover=["hist", "stored"], budget_s=2400, step_budget=400000,
                    kernel=["SimpleCookieJar.add", "SimpleCookieJar.get", "_handshake.handshake_response", "_get_handshake_headers", "_http.read_headers (Set-Cookie merge)"]),
     ]
